@@ -201,7 +201,7 @@ func c08EvString(ev c08srvEv) string { return c08srvMk(ev.K, ev.A...) }
 
 // c08Gen yields, for depth = 1..maxDepth (shortest first), every maximal
 // model-legal event sequence of that depth after the seed.
-func c08Gen(cfg c08srvCfg, seed []string, alpha []c08srvEv, maxDepth int, onDepth func(d int), yield func(c08srvCase) bool) bool {
+func c08Gen(cfg c08srvCfg, seed []string, alpha []c08srvEv, minDepth, maxDepth int, onDepth func(d int), yield func(c08srvCase) bool) bool {
 	base := c08NewModel()
 	for _, s := range seed {
 		ev, err := c08srvParse(s)
@@ -210,7 +210,7 @@ func c08Gen(cfg c08srvCfg, seed []string, alpha []c08srvEv, maxDepth int, onDept
 		}
 		base.apply(ev)
 	}
-	for depth := 1; depth <= maxDepth; depth++ {
+	for depth := max(1, minDepth); depth <= maxDepth; depth++ {
 		path := append([]string(nil), seed...)
 		var rec func(m *c08Model, d int) bool
 		rec = func(m *c08Model, d int) bool {
@@ -385,6 +385,7 @@ func (m *c08Monitor) frame(w *vx.W, f c08srvFrame, ctx string) {
 // Runner.
 
 type c08Result struct {
+	trace            []string // every frame the endpoint wrote, in order (determinism probe)
 	applied, skipped int
 	dataFrames       int
 	blockedSeen      bool
@@ -417,6 +418,7 @@ func c08RunCase(w *vx.W, t testing.TB, cs c08srvCase) (res c08Result, harnessErr
 			if f.Type == FrameData {
 				res.dataFrames++
 			}
+			res.trace = append(res.trace, f.String())
 			mon.frame(w, f, ctx)
 		}
 		if env.wireErr != "" {
@@ -613,6 +615,9 @@ func c08Check(c *vx.Ctx) func(w *vx.W, cs c08srvCase) {
 			res, herr = c08RunCase(w, t, cs)
 			return herr
 		})
+		c.AddStates(1)
+		c.AddTraces(1)
+		c.AddTransitions(int64(res.applied))
 		if res.dataFrames > 0 {
 			w.Nontrivial()
 		}
@@ -648,6 +653,7 @@ func TestVerif_C08(t *testing.T) {
 			seed  []string
 			alpha []c08srvEv
 			depth int
+			from  int // first depth to enumerate (shallower ones are covered by another part)
 		}
 		seedConn := []string{"H", "W(1,65530)"}                  // connection window 5 bytes from exhausted
 		seedTwo := []string{"SETIW(3)", "H", "H", "W(1,5)"}      // two streams, handler 1 blocked on its stream window
@@ -656,37 +662,47 @@ func TestVerif_C08(t *testing.T) {
 		var parts []part
 		if c.Quick() {
 			parts = []part{
-				{"9218/empty", c08srvCfg{Sched: "9218"}, nil, c08Alphabet(iws, mfss, small, wus), 4},
-				{"rr/conn-nearly-full", c08srvCfg{Sched: "rr"}, seedConn, c08Alphabet(iws, nil, small, wus), 3},
-				{"9218/two-streams-blocked", c08srvCfg{Sched: "9218"}, seedTwo, c08Alphabet(iws, nil, small, wus), 3},
-				{"random/negative-window", c08srvCfg{Sched: "random"}, seedNeg, c08Alphabet(iws, nil, small, wus), 3},
-				{"7540/big-writes", c08srvCfg{Sched: "7540"}, seedBig, c08Alphabet([]int64{0, 65535}, mfss, big, []int64{1, 100}), 3},
+				{"9218/empty", c08srvCfg{Sched: "9218"}, nil, c08Alphabet(iws, mfss, small, wus), 4, 0},
+				{"rr/conn-nearly-full", c08srvCfg{Sched: "rr"}, seedConn, c08Alphabet(iws, nil, small, wus), 3, 0},
+				{"9218/two-streams-blocked", c08srvCfg{Sched: "9218"}, seedTwo, c08Alphabet(iws, nil, small, wus), 3, 0},
+				{"random/negative-window", c08srvCfg{Sched: "random"}, seedNeg, c08Alphabet(iws, nil, small, wus), 3, 0},
+				{"7540/big-writes", c08srvCfg{Sched: "7540"}, seedBig, c08Alphabet([]int64{0, 65535}, mfss, big, []int64{1, 100}), 3, 0},
 			}
 		} else {
+			// every scheduler at the quick bounds first, then the deeper levels
 			for _, sch := range []string{"9218", "rr", "7540", "random"} {
-				d := 4
-				if sch == "9218" {
-					d = 5
-				}
 				parts = append(parts,
-					part{sch + "/empty", c08srvCfg{Sched: sch}, nil, c08Alphabet(iws, mfss, small, wus), d},
-					part{sch + "/conn-nearly-full", c08srvCfg{Sched: sch}, seedConn, c08Alphabet(iws, nil, small, wus), 4},
-					part{sch + "/two-streams-blocked", c08srvCfg{Sched: sch}, seedTwo, c08Alphabet(iws, nil, small, wus), 4},
-					part{sch + "/negative-window", c08srvCfg{Sched: sch}, seedNeg, c08Alphabet(iws, nil, small, wus), 4},
-					part{sch + "/big-writes", c08srvCfg{Sched: sch}, seedBig, c08Alphabet([]int64{0, 65535}, mfss, big, []int64{1, 100}), 4},
+					part{sch + "/empty", c08srvCfg{Sched: sch}, nil, c08Alphabet(iws, mfss, small, wus), 4, 0},
+					part{sch + "/conn-nearly-full", c08srvCfg{Sched: sch}, seedConn, c08Alphabet(iws, nil, small, wus), 3, 0},
+					part{sch + "/two-streams-blocked", c08srvCfg{Sched: sch}, seedTwo, c08Alphabet(iws, nil, small, wus), 3, 0},
+					part{sch + "/negative-window", c08srvCfg{Sched: sch}, seedNeg, c08Alphabet(iws, nil, small, wus), 3, 0},
+					part{sch + "/big-writes", c08srvCfg{Sched: sch}, seedBig, c08Alphabet([]int64{0, 65535}, mfss, big, []int64{1, 100}), 3, 0},
 				)
 			}
+			for _, sch := range []string{"9218", "rr"} {
+				parts = append(parts,
+					part{sch + "/deep/conn-nearly-full", c08srvCfg{Sched: sch}, seedConn, c08Alphabet(iws, nil, small, wus), 4, 4},
+					part{sch + "/deep/big-writes", c08srvCfg{Sched: sch}, seedBig, c08Alphabet([]int64{0, 65535}, mfss, big, []int64{1, 100}), 4, 4},
+					part{sch + "/deep/two-streams-blocked", c08srvCfg{Sched: sch}, seedTwo, c08Alphabet(iws, nil, small, wus), 4, 4},
+					part{sch + "/deep/negative-window", c08srvCfg{Sched: sch}, seedNeg, c08Alphabet(iws, nil, small, wus), 4, 4},
+				)
+			}
+			parts = append(parts, part{"9218/deep/empty", c08srvCfg{Sched: "9218"}, nil, c08Alphabet(iws, mfss, small, wus), 5, 5})
 		}
-		c.Rule("EV: for each part (write scheduler x seed prefix) every event sequence of depth 1..D after the seed over the menu {H (<=2 GET streams), handler Write(n)+Flush, handler return, WINDOW_UPDATE(conn|stream, k), SETTINGS INITIAL_WINDOW_SIZE / MAX_FRAME_SIZE, RST_STREAM}, pruned by a predictive model (events on streams that are not open or whose handler is blocked are not issued) and decided on the real state at run time; each sequence runs on a fresh real http2.Server in its own synctest bubble; after every event: quiescence, drain all frames, RFC 7540 §6.9 window accounting on every DATA frame, frame length vs MAX_FRAME_SIZE, progress at quiescence, white-box sc.flow/st.flow == monitor. non-trivial = the server emitted at least one DATA frame")
+		c.Rule("EV: for each part (write scheduler x seed prefix) every event sequence of depth 1..D after the seed over the menu {H (<=2 GET streams), handler Write(n)+Flush, handler return, WINDOW_UPDATE(conn|stream, k), SETTINGS INITIAL_WINDOW_SIZE / MAX_FRAME_SIZE, RST_STREAM}, pruned by a predictive model (events on streams that are not open or whose handler is blocked are not issued) and decided on the real state at run time; each sequence runs on a fresh real http2.Server in its own synctest bubble; after every event: quiescence, drain all frames, RFC 7540 §6.9 window accounting on every DATA frame, frame length vs MAX_FRAME_SIZE, progress at quiescence, white-box sc.flow/st.flow == monitor. non-trivial = the server emitted at least one DATA frame; states = explored event histories (stateless search), transitions = events applied to the real server and checked at quiescence, traces = histories executed to their end")
 		c.Assume("interleavings are explored at event granularity (one client/handler event, then run to quiescence); scheduling inside a step is Go's (L2)")
 		c.Assume("after a WINDOW_UPDATE/SETTINGS that overflows a window the client's view of that window is undefined; the monitor keeps the old value and requires the FLOW_CONTROL_ERROR the RFC mandates")
 		c.Assume("progress is checked only as: at quiescence no live stream has flushed handler bytes off the wire while both its windows are positive (L4)")
+		c08Determinism(c, func(w *vx.W, t testing.TB) ([]string, string) {
+			res, herr := c08RunCase(w, t, c08srvCase{Cfg: c08srvCfg{Sched: "9218"}, Evs: []string{"SETIW(3)", "H", "H", "W(1,5)", "W(3,20)", "WU(1,4)", "SETIW(10)", "DONE(1)", "RST(3)"}})
+			return res.trace, herr
+		})
 		for _, p := range parts {
 			p := p
 			completed := 0
-			vx.Enumerate(c, p.name, vx.Opts{Serial: true},
+			vx.Enumerate(c, p.name, vx.Opts{Serial: true, Crumb: true},
 				func(yield func(c08srvCase) bool) {
-					c08Gen(p.cfg, p.seed, p.alpha, p.depth, func(d int) { completed = d }, yield)
+					c08Gen(p.cfg, p.seed, p.alpha, p.from, p.depth, func(d int) { completed = d }, yield)
 				},
 				c08Check(c))
 			if completed < p.depth && !c.Replaying() {
@@ -695,4 +711,38 @@ func TestVerif_C08(t *testing.T) {
 			c.Note(p.name+".depth", p.depth)
 		}
 	})
+}
+
+// c08Determinism runs one fixed representative history twice and records
+// whether the two wire traces agree (DESIGN §2.2 EV (c)); a mismatch is reported
+// as reduced confidence in replay, never as a violation.
+func c08Determinism(c *vx.Ctx, run func(w *vx.W, t testing.TB) (trace []string, harnessErr string)) {
+	if c.Replaying() {
+		return
+	}
+	var traces [2]string
+	vx.Enumerate(c, "determinism-probe", vx.Opts{Serial: true, NoSample: true},
+		func(yield func(int) bool) {
+			_, n := c.Shard()
+			// give the probe to every shard: indices 0..n-1 and n..2n-1
+			for i := 0; i < 2*n; i++ {
+				if !yield(i) {
+					return
+				}
+			}
+		},
+		func(w *vx.W, i int) {
+			_, n := c.Shard()
+			c08srvBubble(c, "probe", func(t testing.TB) string {
+				tr, herr := run(w, t)
+				traces[i/n] = fmt.Sprint(tr)
+				return herr
+			})
+			w.Outcome("probe")
+		})
+	same := traces[0] == traces[1] && traces[0] != ""
+	c.Note("deterministic_probe", same)
+	if !same {
+		c.Cap("determinism probe: two executions of the same history produced different wire traces")
+	}
 }
